@@ -882,8 +882,8 @@ Qed.
 Lemma existsb_In c l : existsb (Z.eqb c) l = true -> In c l.
 Proof. intros H. apply existsb_exists in H. destruct H as [x [Hx E]]. apply Z.eqb_eq in E. subst. exact Hx. Qed.
 
-Theorem column_roundtrip fx5 k l c :
-  bcol_of_cells_gen fx5 k l = Some c -> Forall (fun b => mb_ok k b = true) l -> Forall mb_small l ->
+Theorem column_roundtrip fx5 fx6 k l c :
+  bcol_of_cells_gen fx5 fx6 k l = Some c -> Forall (fun b => mb_ok k b = true) l -> Forall mb_small l ->
   ecells c = map erase_b l /\ bcol_len c = length l.
 Proof.
   intros H Hok Hsm.
@@ -936,6 +936,7 @@ Proof.
     simpl. rewrite (IH Hk2). f_equal. apply encode_decode_dna; [apply existsb_In; exact Hk1|exact Hc].
   - (* KStrand *)
     destruct (all_MS l) as [ss|] eqn:E; [|discriminate].
+    destruct (fx6 && negb (forallb (fun s => Nat.eqb (length s) 1) ss)); [discriminate|].
     destruct (map_opt encode_strand (concat ss)) as [cs|] eqn:E2; [|discriminate]. injection H as <-.
     apply map_opt_Forall2 in E. apply map_opt_Forall2 in E2.
     unfold ecells. simpl. rewrite map_map.
